@@ -303,3 +303,20 @@ func Harness_C14_Callers() {
 		_ = k
 	}
 }
+
+// H4b: endpoints of the same name in two applications, each hidden or not on its own:
+// hiding one of them does not hide (or reveal) its namesake.
+func Harness_C14_HiddenNamesakes() {
+	human := []bool{false, false, false}
+	hidden := [][]bool{{false, false}, {nd.Bool("B.e0-hidden"), nd.Bool("B.e1-hidden")}, {nd.Bool("C.e0-hidden"), false}}
+	calls := []c14Call{{src: 0, sep: 0, dst: 1, dep: 0}, {src: 0, sep: 1, dst: 2, dep: 0}, {src: 0, sep: 1, dst: 1, dep: 1}}
+	m := c14Build(calls, human, hidden)
+	listed := []bool{true, false, false}
+	none := []bool{false, false, false}
+	b := c14Run(m, listed, none, none)
+	if b == nil {
+		return
+	}
+	c14Sound(m, b, none)
+	c14Complete(m, b, listed, none)
+}
